@@ -767,6 +767,10 @@ def _arg_combine(data, axis, argfunc, keepdims=False):
     vals = data["vals"]
     arg = data["arg"]
     if axis is None:
+        # among equal extrema the smallest flat index must win, as in NumPy
+        order = np.argsort(arg, axis=None, kind="stable")
+        vals = vals.ravel()[order].reshape(vals.shape)
+        arg = arg.ravel()[order].reshape(arg.shape)
         local_args = argfunc(vals, axis=axis, keepdims=keepdims)
         vals = vals.ravel()[local_args]
         arg = arg.ravel()[local_args]
